@@ -111,6 +111,8 @@ vector<double> NumCalcApplicationTools::getVector(const std::string& desc)
     else
     {
       int size = TextTools::toInt(keyvals["size"]);
+      if (size < 1)
+        throw Exception("Unvalid sequence specification, 'size' must be at least 1: " + desc);
       double step = (end - start) / (double)size;
       for (int i = 0; i < size - 1; i++)
       {
